@@ -118,7 +118,24 @@ def run_check(pid, tier, seed, replay, t0):
             raise InfraError("leanchecker rejected %s:\n%s" % (prop_modules, out[-2000:]))
 
     # 4. dynamic part (corpus first is the module's responsibility through ctx helpers)
-    res = cfg.run(ctx)
+    try:
+        res = cfg.run(ctx)
+    except InfraError:
+        raise
+    except Exception as e:  # noqa
+        # an exception escaping from the REAL code (a frame under the repository) that the harness did not anticipate means the
+        # implementation no longer behaves like the model on that call: a broken correspondence, not an infrastructure problem
+        tb = traceback.extract_tb(e.__traceback__)
+        repo_frames = [f for f in tb if os.path.realpath(f.filename).startswith(os.path.realpath(REPO) + os.sep)]
+        if not repo_frames:
+            raise
+        last = repo_frames[-1]
+        res = {"coverage": {"evaluations": 0, "aborted_by_exception_in_implementation": True},
+               "failing_inputs": [], "disagreements": [],
+               "broken": [("correspondence:%s" % pid,
+                           "the implementation raised %s: %s at %s:%d (%s) during the correspondence run; harness frames: %s" %
+                           (type(e).__name__, str(e)[:300], os.path.relpath(last.filename, REPO), last.lineno, last.name,
+                            " <- ".join("%s:%d" % (os.path.basename(f.filename), f.lineno) for f in tb if f not in repo_frames)[-400:]))]}
     fails = list(res.get("failing_inputs", []))        # concrete inputs on which the property fails
     disagreements = list(res.get("disagreements", []))  # correspondence breaks without a decided failing input
     for name, detail in res.get("broken", []):
